@@ -164,9 +164,40 @@ def checks_for_screen(s, p, A, tag):
         A(("Fried allowed size%s" % tag, 0.0 if (nx == 2 ** int(round(math.log2(nx - 1))) + 1 and nx >= p["nx"] and (nx == 2 or (nx - 1) // 2 + 1 < p["nx"])) else 1.0, 0.0))
 
 
+def long_history_checks(p, A):
+    """a natural history through the public interface only: the harness keeps its own copy of the whole screen (initial state
+    read once, afterwards only the newest row is read) and predicts every new row as A Z + B b from THAT history"""
+    gen = ic.ScriptedGenerator(p["data_seed"] + 77)
+    s = ic.make_screen(p["kind"], p["nx"], p["ps"], p["r0"], p["L0"], p["extra"], gen)
+    gen.row_len = s.nx_size
+    hist = numpy.array(s._scrn, copy=True)
+    worst, first_bad = 0.0, None
+    for t in range(int(p["long_history"])):
+        nserved = len(gen.served)
+        s.add_row()
+        if len(gen.served) != nserved + 1:
+            A(("one innovation vector is drawn per added row (long history)", 1.0, 0.0)); return
+        Z = hist[(s.stencil_coords[:, 0], s.stencil_coords[:, 1])]
+        ref = hist[1, 1] if p["kind"] == "fried" else 0.0
+        want = s.A_mat.dot(Z - ref) + s.B_mat.dot(gen.served[-1]) + ref
+        got = numpy.array(s._scrn[0], copy=True)
+        e = float(numpy.abs(got - want).max() / max(float(numpy.abs(want).max()), 1e-300))
+        if e > 1e-9 and first_bad is None:
+            first_bad = t + 1
+        worst = max(worst, e)
+        hist = numpy.vstack([got[None, :], hist[:-1]])
+        if not numpy.array_equal(numpy.asarray(s.scrn), hist[:s.requested_nx_size, :s.requested_nx_size]):
+            worst = max(worst, 1.0); first_bad = first_bad or t + 1
+    A(("over a history of %d rows every new row is A Z + B b of the true history and the exposed screen is that history%s"
+       % (p["long_history"], "" if first_bad is None else " (first failure at step %d)" % first_bad), worst, 1e-9))
+
+
 def property_checks(p):
     out = []
     A = out.append
+    if p.get("long_history"):
+        long_history_checks(p, A)
+        return out
     # the same geometry with other r0 / pixel scale first (hidden state between instances must not matter)
     for i, (r0f, psf) in enumerate([(1.0, 1.0)] + ([(2.0, 1.0), (1.0, 1.5)] if p.get("family") else [])):
         gen = ic.ScriptedGenerator(p["data_seed"] + i)
@@ -197,6 +228,11 @@ def falsify(ctx, deep=False):
             p.update({"kind": "fried", "nx": 6, "extra": 2, "ps": 1, "r0": 1.0, "L0": 30.0})       # integer pixel scale
         if k == 3:
             p.update({"kind": "vk", "nx": 6, "extra": 2, "ps": 2, "r0": 1.5, "L0": 25.0})
+        if k == 5 or (deep and k == 6):
+            # screens taller than 64 rows over histories longer than 64 steps (buffers, windows and chunked updates show here)
+            p.update({"kind": "vk", "nx": rng.choice([70, 80, 97]), "extra": rng.choice([1, 2]), "ps": 0.1, "r0": 0.2, "L0": 25.0, "family": False,
+                      "long_history": rng.randint(70, 140)} if k == 5 else
+                     {"kind": "fried", "nx": rng.choice([40, 65]), "extra": 1, "ps": 0.1, "r0": 0.2, "L0": 25.0, "family": False, "long_history": rng.randint(70, 100)})
         if k == 4:
             p.update({"kind": "fried", "nx": 5, "extra": 2, "ps": 3.14159e-5, "r0": 9.3e-5, "L0": 6.1e-3, "family": False})
         try:
